@@ -210,7 +210,8 @@ def metadata_family(tier):
 # variants (how wraps is applied)
 
 EXTRA_LIMIT = 4          # thorough: two added parameters / injected+expected only for <= 4 named parameters
-LIST_CALLS_LIMIT = 3     # quick: injected lists get all call shapes for <= 3 named parameters, else signature only
+LIST_CALLS_LIMIT = {'quick': 3, 'thorough': EXTRA_LIMIT}   # injected lists get all call shapes for <= this many
+                                                          # named parameters, beyond: signature and metadata only
 LIST_FORMS_LIMIT = 2     # injected lists are also passed as tuple / iterator for <= 2 named parameters
 
 
@@ -272,7 +273,7 @@ def variants_for(spec, names, tier, metadata_only=False):
             v = {'api': 'wraps', 'injected': seq}
             if form != 'list':
                 v['iform'] = form
-            if tier == 'quick' and len(named) > LIST_CALLS_LIMIT:
+            if len(named) > LIST_CALLS_LIMIT[tier]:
                 v['calls'] = 'none'
             out.append(v)
     out.append({'api': 'update_wrapper', 'expected': {'form': 'dict', 'n': 1, 'default': 'int'}})
@@ -667,7 +668,7 @@ def check_variant(t, spec, variant, f, names, part, calls=None):
                 bad('rewrap:metadata:__wrapped__', 'the wrapped function', repr(getattr(w2, '__wrapped__', None)))
     # ---- calls
     if calls is None and variant.get('calls') == 'none':
-        calls = []          # quick tier, injected list on a large function: signature and metadata only
+        calls = []          # injected list on a large function: signature and metadata only
     if calls is None:
         added = [n for n, _ in expected_items(variant.get('expected'))]
         calls = call_shapes(len(names['pos']) + len(added) + 2, names['pos'] + names['kwo'] + added + [UNKNOWN])
@@ -743,7 +744,7 @@ def run(ctx):
                             '(tuple/iterator forms for <= %d named parameters%s); expected as (form/number/default) '
                             % (EXTRA_LIMIT, '1' if ctx.quick() else 'up to 2', LIST_FORMS_LIMIT,
                                '; call shapes for <= %d named parameters, signature and metadata only beyond'
-                               % LIST_CALLS_LIMIT if ctx.quick() else '')
+                               % LIST_CALLS_LIMIT[ctx.tier])
                             + ', '.join('%s/%d/%s' % x for x in expected_forms(ctx.tier))
                             + ('; injected=[p] combined with expected; two added parameters and the combination '
                                'only for functions with <= %d named parameters' % EXTRA_LIMIT
